@@ -22,7 +22,7 @@ class iCE40PLL(LiteXModule):
     divr_range = (0,  16)
     divf_range = (0, 128)
     divq_range = (0,   7)
-    clki_freq_range = ( 10e6,  133e9)
+    clki_freq_range = ( 10e6,  133e6)
     clko_freq_range = ( 16e6,  275e9)
     vco_freq_range  = (533e6, 1066e6)
 
@@ -99,7 +99,7 @@ class iCE40PLL(LiteXModule):
         clkfb = Signal()
         for f, v in [(17e6, 1), (26e6, 2), (44e6, 3), (66e6, 4), (101e6, 5), (133e6, 6)]:
             pfd_freq = self.clkin_freq/(config["divr"] + 1)
-            if pfd_freq < f:
+            if pfd_freq <= f:
                 filter_range = v
                 break
         self.params.update(
